@@ -13,6 +13,7 @@
 //! call with t < -7 days finds every report of the run less than a week old.
 //!
 //! usage: gossip --out TRACE [--scripts FILE] [--random N] [--seed S] [--scripts-out FILE]
+//!        gossip --mode rtsweep --out TRACE [--max-len 700] [--seed S] [--random N mixed graphs]   (C12, see `rtsweep` below)
 
 use bitcoin::constants::ChainHash;
 use bitcoin::hashes::{sha256d, Hash};
@@ -929,6 +930,183 @@ fn random_script(rng: &mut StdRng) -> Value {
 	json!({"lookup": lookup, "async": false, "caps": caps, "ops": ops, "pure": pure_run})
 }
 
+// ---------------------------------------------------------------------------------------------
+// mode rtsweep (C12): write/read round trips of small real graphs whose variable-length parts
+// sweep across the codec's length-prefix boundaries.  Every graph is built from really signed
+// messages accepted through the public update_* entry points; the part named by `what` carries
+// `len` bytes of trailing data the library does not understand (and must keep when it stores the
+// message for relay).  One record per round trip; nothing is judged here (GraphRtTrace.tla).
+
+static FILL_SALT: std::sync::atomic::AtomicUsize = std::sync::atomic::AtomicUsize::new(0);
+
+fn filler(len: usize, salt: usize) -> Vec<u8> {
+	let salt = salt.wrapping_add(FILL_SALT.load(std::sync::atomic::Ordering::Relaxed).wrapping_mul(31));
+	(0..len).map(|i| (i.wrapping_mul(7).wrapping_add(salt).wrapping_add(len) & 0xff) as u8).collect()
+}
+
+fn sweep_ca(k: &Keys, c: i64, n1: i64, n2: i64, excess: usize) -> ChannelAnnouncement {
+	let mut ca = build_ca(k, &json!({"c": c, "n1": n1, "n2": n2, "chain": true, "bs": 1, "w": 0, "s1": n1, "s2": n2}));
+	ca.contents.excess_data = filler(excess, 1);
+	let enc = ca.contents.encode();
+	let (b1, b2) = k.btc(c);
+	ca.node_signature_1 = k.sign(&enc, n1, n1);
+	ca.node_signature_2 = k.sign(&enc, n2, n2);
+	ca.bitcoin_signature_1 = k.sign_with(&enc, &b1);
+	ca.bitcoin_signature_2 = k.sign_with(&enc, &b2);
+	ca
+}
+
+fn sweep_cu(k: &Keys, c: i64, d: i64, signer: i64, base: i64, excess: usize) -> ChannelUpdate {
+	let mut cu = build_cu(
+		k,
+		&json!({"c": c, "d": d, "ts": 10 + d, "s": signer, "chain": true, "en": true, "cltv": 40 + d, "hmin": 1,
+			"hmax": 100_000, "fb": 1000 + d, "fp": 10}),
+		base,
+		signer,
+	);
+	cu.contents.excess_data = filler(excess, 2 + d as usize);
+	let enc = cu.contents.encode();
+	cu.signature = k.sign(&enc, signer, signer);
+	cu
+}
+
+fn sweep_na(k: &Keys, n: i64, base: i64, excess_addr: usize, excess: usize) -> NodeAnnouncement {
+	let mut na = build_na(k, &json!({"n": n, "ts": 20, "s": n, "ap": 3, "ad": 9735}), base);
+	let mut ead = filler(excess_addr, 5);
+	if !ead.is_empty() {
+		ead[0] = 0xfe; // an address descriptor type nobody knows: the rest of the address field is kept as is
+	}
+	na.contents.excess_address_data = ead;
+	na.contents.excess_data = filler(excess, 6);
+	let enc = na.contents.encode();
+	na.signature = k.sign(&enc, n, n);
+	na
+}
+
+const SWEEP_WHAT: [&str; 7] = ["ca", "cu0", "cu1", "cu_both", "na_excess", "na_addr", "all"];
+
+/// lengths of the trailing parts of one graph: channel_announcement, channel_update dir 0 / dir 1 (None: no update),
+/// node_announcement of node 1 (excess address data, excess data; None: not announced), of node 2 (excess data)
+struct SweepLens {
+	ca: usize,
+	cu: [Option<usize>; 2],
+	na1: Option<(usize, usize)>,
+	na2: Option<usize>,
+}
+
+fn sweep_lens(what: &str, len: usize) -> SweepLens {
+	let mut s = SweepLens { ca: 0, cu: [None, None], na1: None, na2: None };
+	match what {
+		"ca" => { s.ca = len; s.cu[0] = Some(0) },
+		"cu0" => s.cu[0] = Some(len),
+		"cu1" => s.cu[1] = Some(len),
+		"cu_both" => s.cu = [Some(len), Some(len)],
+		"na_excess" => s.na1 = Some((0, len)),
+		"na_addr" => s.na1 = Some((len, 0)),
+		_ => {
+			s = SweepLens { ca: len, cu: [Some(len), Some(len)], na1: Some((len / 2, len - len / 2)), na2: Some(len) }
+		},
+	}
+	s
+}
+
+fn sweep_one(k: &Keys, what: &str, len: usize, s: &SweepLens, run: u64, tw: &mut TraceWriter) {
+	let logger = Arc::new(NullLogger);
+	let base = SystemTime::now().duration_since(UNIX_EPOCH).unwrap().as_secs() as i64 - 1000;
+	let graph: Graph = NetworkGraph::new(Network::Testnet, Arc::clone(&logger));
+	let (n1, n2) = (1i64, 2i64);
+	let mut accepted = true;
+	accepted &= graph.update_channel_from_announcement_no_lookup(&sweep_ca(k, 1, n1, n2, s.ca)).is_ok();
+	// a second, plain channel and node: a mis-sized record must not be able to hide at the end of the file
+	accepted &= graph.update_channel_from_announcement_no_lookup(&sweep_ca(k, 2, n2, 3, 0)).is_ok();
+	for d in 0..2i64 {
+		if let Some(l) = s.cu[d as usize] {
+			accepted &= graph.update_channel(&sweep_cu(k, 1, d, if d == 0 { n1 } else { n2 }, base, l)).is_ok();
+		}
+	}
+	if let Some((a, e)) = s.na1 {
+		accepted &= graph.update_node_from_announcement(&sweep_na(k, n1, base, a, e)).is_ok();
+	}
+	if let Some(e) = s.na2 {
+		accepted &= graph.update_node_from_announcement(&sweep_na(k, n2, base, 0, e)).is_ok();
+	}
+	accepted &= graph.update_node_from_announcement(&sweep_na(k, 3, base, 0, 0)).is_ok();
+	let mut bytes = Vec::new();
+	let write_ok = graph.write(&mut bytes).is_ok();
+	let (mut read_ok, mut equal, mut rewrite_equal, mut consumed, mut same_bytes) = (false, false, false, false, false);
+	let mut err = String::new();
+	let mut rd = &bytes[..];
+	match Graph::read(&mut rd, Arc::clone(&logger)) {
+		Ok(g2) => {
+			read_ok = true;
+			consumed = rd.is_empty();
+			equal = g2 == graph;
+			// the file is written in hash-map order, so a second generation need not be byte-identical (recorded
+			// for information only); it must have the same size and read back to the same graph
+			let bytes2 = g2.encode();
+			same_bytes = bytes2 == bytes;
+			let mut rd2 = &bytes2[..];
+			rewrite_equal = bytes2.len() == bytes.len()
+				&& match Graph::read(&mut rd2, Arc::clone(&logger)) {
+					Ok(g3) => rd2.is_empty() && g3 == graph && g3 == g2,
+					Err(_) => false,
+				};
+		},
+		Err(e) => err = format!("{:?}", e),
+	}
+	let ro = graph.read_only();
+	let stored = ro.channels().len() as u64 * 1000 + ro.nodes().len() as u64;
+	tw.emit(json!({"run": run, "ev": "rt_graph", "what": what, "len": len, "accepted": accepted, "write_ok": write_ok,
+		"bytes": bytes.len(), "read_ok": read_ok, "consumed": consumed,
+		"equal": equal, "rewrite_equal": rewrite_equal, "same_bytes": same_bytes, "err": err, "shape": stored}));
+}
+
+fn rtsweep(k: &Keys, out: &str, max_len: usize, seed: u64, nmixed: u64) {
+	FILL_SALT.store(seed as usize, std::sync::atomic::Ordering::Relaxed);
+	let mut tw = TraceWriter::create(out);
+	let mut lens: Vec<usize> = (0..=max_len).collect();
+	// the relay limit (beyond it the message is not stored), and the largest messages the 65535-byte wire limit allows
+	lens.extend_from_slice(&[1022, 1023, 1024, 1025, 1026, 2048, 65000, 65096, 65097, 65098, 65396, 65397, 65398]);
+	let (mut run, mut panics) = (0u64, 0u64);
+	for what in SWEEP_WHAT.iter() {
+		for &len in lens.iter() {
+			run += 1;
+			let r = catch_unwind(AssertUnwindSafe(|| sweep_one(k, what, len, &sweep_lens(what, len), run, &mut tw)));
+			if r.is_err() {
+				panics += 1;
+				tw.emit(json!({"run": run, "ev": "panic", "what": what, "len": len}));
+			}
+		}
+	}
+	// seeded: every part present or absent and of its own length (`len` records the sum)
+	let mut rng = StdRng::seed_from_u64(seed.wrapping_mul(1_000_003).wrapping_add(77));
+	for _ in 0..nmixed {
+		let pick = |rng: &mut StdRng| -> usize {
+			match rng.gen_range(0..4) {
+				0 => rng.gen_range(0..=max_len.max(1030)),
+				1 => rng.gen_range(40..=130),   // where the nested containers of a stored message cross 0xfd
+				2 => rng.gen_range(1018..=1030), // the relay limit
+				_ => rng.gen_range(0..=300),
+			}
+		};
+		let s = SweepLens {
+			ca: pick(&mut rng),
+			cu: [if rng.gen_bool(0.8) { Some(pick(&mut rng)) } else { None }, if rng.gen_bool(0.8) { Some(pick(&mut rng)) } else { None }],
+			na1: if rng.gen_bool(0.8) { Some((pick(&mut rng) / 2, pick(&mut rng) / 2)) } else { None },
+			na2: if rng.gen_bool(0.5) { Some(pick(&mut rng)) } else { None },
+		};
+		let len = s.ca + s.cu[0].unwrap_or(0) + s.cu[1].unwrap_or(0) + s.na1.map(|(a, e)| a + e).unwrap_or(0) + s.na2.unwrap_or(0);
+		run += 1;
+		let r = catch_unwind(AssertUnwindSafe(|| sweep_one(k, "mixed", len, &s, run, &mut tw)));
+		if r.is_err() {
+			panics += 1;
+			tw.emit(json!({"run": run, "ev": "panic", "what": "mixed", "len": len}));
+		}
+	}
+	tw.flush();
+	println!("{}", json!({"mode": "rtsweep", "runs": run, "panics": panics, "events": tw.lines, "kinds": SWEEP_WHAT.len(), "lengths": lens.len(), "mixed": nmixed}));
+}
+
 fn main() {
 	let args: Vec<String> = std::env::args().collect();
 	let mut scripts_path: Option<String> = None;
@@ -936,6 +1114,8 @@ fn main() {
 	let mut scripts_out: Option<String> = None;
 	let mut nrand: u64 = 0;
 	let mut seed: u64 = 1;
+	let mut mode = "scripts".to_string();
+	let mut max_len: usize = 700;
 	let mut i = 1;
 	while i < args.len() {
 		match args[i].as_str() {
@@ -944,12 +1124,18 @@ fn main() {
 			"--scripts-out" => { scripts_out = Some(args[i + 1].clone()); i += 1 },
 			"--random" => { nrand = args[i + 1].parse().unwrap(); i += 1 },
 			"--seed" => { seed = args[i + 1].parse().unwrap(); i += 1 },
+			"--mode" => { mode = args[i + 1].clone(); i += 1 },
+			"--max-len" => { max_len = args[i + 1].parse().unwrap(); i += 1 },
 			_ => {},
 		}
 		i += 1;
 	}
 	std::panic::set_hook(Box::new(|_| {}));
 	let k = Keys::new();
+	if mode == "rtsweep" {
+		rtsweep(&k, &out, max_len, seed, nrand);
+		return;
+	}
 	let mut tw = TraceWriter::create(&out);
 	let mut st = Stats::default();
 	let mut run: u64 = 0;
